@@ -1,5 +1,6 @@
 """C04 — see properties.jsonl."""
 from . import proc_common as PC
+from . import inbox_common as IC
 from .proc_common import TRUSTED_BASE, ASSUMPTIONS
 
 COQ_FILES = ["Proc.v", "ProcExec.v"]
@@ -15,4 +16,4 @@ class Part(PC.ProcPart):
     prop = 4
 
 
-PARTS = [Part()]
+PARTS = [Part(), IC.DeliverSpawnRace()]
